@@ -125,6 +125,19 @@ let handle (line : string) : string =
     let dests = String.concat "|" (List.map (fun chunks ->
       if chunks = [] then "." else String.concat "," (List.map hex_of_bytes chunks)) r.wdests) in
     Printf.sprintf "W %d %s %s 1 0" (if r.woob then 1 else 0) (if res = "" then "-" else res) dests
+  | ["E"; bufsize; chunks; term; reads; data] ->
+    (* engine model: E <bufio size> <chunk sizes, comma separated, or -> <eof|err> <read sizes> <hex> *)
+    let ints s = if s = "-" then [] else List.map int_of_string (String.split_on_char ',' s) in
+    let bytes = bytes_of_hex data in
+    let rec cut l = function
+      | [] -> []
+      | k :: r -> let rec take n l acc = if n = 0 then (List.rev acc, l) else (match l with [] -> (List.rev acc, []) | x :: t -> take (n - 1) t (x :: acc)) in
+                  let (c, rest) = take k l [] in c :: cut rest r in
+    let (obs, consumed) = erun_obs (n_of_int (int_of_string bufsize)) (cut bytes (ints chunks)) (term = "err")
+                            (List.map n_of_int (ints reads)) in
+    let rs = String.concat "," (List.map (fun (b, c) -> Printf.sprintf "%d:%d" (List.length b) (int_of_n c)) obs) in
+    let all = List.concat (List.map fst obs) in
+    Printf.sprintf "E %d %s %s" (int_of_n consumed) (if rs = "" then "-" else rs) (hex_of_bytes all)
   | _ -> "ERR bad request"
 
 let () =
